@@ -293,11 +293,18 @@ def ob_step(v: int, pvar: int, pvol: bool, ncmd: int) -> bool:
     pvars = {"u": pvar}
     if ptext == "p/ns-n2":
         pvars["active_namespaces"] = ["n2", "root"]
+    pvars["glob"] = 5                      # a configured default (value 1) that the prefix has overridden
     sp = mkstate(ptext, Box(v), volatile=pvol, vars=pvars, commands=pcmds)
     ctx = HContext(NoCache(), {ptext: sp})
     del CALLS[:]
-    with quiet():
-        out = ctx.evaluate(q)
+    import liquer.state as _lstate
+    saved = _lstate._vars
+    try:
+        _lstate._vars = {"glob": 1}
+        with quiet():
+            out = ctx.evaluate(q)
+    finally:
+        _lstate._vars = saved
     ok = not out.is_error
     ok = ok and ctx.asked == [(ptext, ctx._cache, {})]                     # predecessor requested as exactly predecessor(Q)
     action = parse(q).segments[-1].query[-1] if not parse(q).segments[-1].filename else None
